@@ -59,6 +59,10 @@ def undecoded(kind, tid=1):
         return E.ev('MACH_vm_page_release', 0, (1, 2, 3, 4), tid=tid)
     if kind == 'U':
         return E.ev(0xdead0000, 0, (1, 2, 3, 4), tid=tid)
+    if kind == 'X':
+        return E.ev('TRACE_DATA_THREAD_TERMINATE', 0, (tid, 0, 0, 0), tid=tid)     # the thread's own terminate record
+    if kind == 'L':
+        return E.ev('TRACE_LOST_EVENTS', 0, (0, 0, 0, 0), tid=tid)
     return E.ev('MACH_WAIT', 0, (0x10, 0, 0, 0), tid=tid)
 
 
@@ -105,13 +109,19 @@ def windows(name, ws, pick):
                 yield f'vmfault[{k1},{k2},res={res}]', [S] + nested + [dev(name, 2, e2)]
     if name == 'PERF_Event':
         for flags in (0x9, 0x1, 0x8, 0x0, 0xc):
-            s2 = (flags, s[1], s[2], s[3])
-            yield f'perf[flags={flags:#x}]', [dev(name, 1, s2), E.ev('PERF_THD_Data', 0, (9, 1, 0, 4)),
-                                             E.ev('PERF_STK_UHdr', 0, (1, 5, 0, 0)), E.ev('PERF_STK_UData', 0, (1, 2, 3, 4)),
-                                             E.ev('PERF_STK_UData', 0, (5, 6, 7, 8)), dev(name, 2, e)]
+            # the stack header's own flag word: valid only / every declared flag (incl. the PC-fixup one) / none
+            for hflags in ((0x1, 0x1ff, 0x100, 0x0) if flags == 0x9 else (0x1,)):
+                s2 = (flags, s[1], s[2], s[3])
+                yield f'perf[flags={flags:#x},hdr={hflags:#x}]', [dev(name, 1, s2), E.ev('PERF_THD_Data', 0, (9, 1, 0, 4)),
+                                                                 E.ev('PERF_STK_UHdr', 0, (hflags, 5, 0, 0)), E.ev('PERF_STK_UData', 0, (1, 2, 3, 4)),
+                                                                 E.ev('PERF_STK_UData', 0, (5, 6, 7, 8)), dev(name, 2, e)]
     if name == 'DBG_DYLD_TIMING_LAUNCH_EXECUTABLE':
         yield 'launch', [S, E.ev('DYLD_uuid_map_a', 0, (1, 2, 0x2000, 3)), E.ev('DYLD_uuid_shared_cache_a', 0, (4, 5, 0x1000, 6)),
                          E.ev('DYLD_uuid_map_b', 0, (7, 0, 0, 0)), En]
+    if name == 'DBG_DYLD_TIMING_LAUNCH_EXECUTABLE':
+        # two images (and the shared cache) announced at the SAME load address (a re-mapped slot; a zeroed address word)
+        yield 'launch-same-address', [S, E.ev('DYLD_uuid_map_a', 0, (1, 2, 0x2000, 3)), E.ev('DYLD_uuid_map_a', 0, (8, 9, 0x2000, 3)),
+                                      E.ev('DYLD_uuid_shared_cache_a', 0, (4, 5, 0x2000, 6)), E.ev('DYLD_uuid_map_a', 0, (1, 2, 0x2000, 3)), En]
     if name == 'TRACE_DATA_THREAD_TERMINATE':
         yield 'terminate-named', [E.ev('TRACE_STRING_THREADNAME', 0, tid=s[0] & 0xffff or 1, data=text_data('thr')), dev(name, 0, s)]
 
@@ -128,7 +138,7 @@ def variants(label, win):
     if label == 'generic':
         for i in range(n):
             yield ('dup', i), win[:i + 1] + [win[i]] + win[i + 1:]
-        for kind in ('K', 'U', 'W', 'T', 'D'):
+        for kind in ('K', 'U', 'W', 'T', 'D', 'X', 'L'):
             for i in range(n + 1):
                 yield ('ins', kind, i), win[:i] + [undecoded(kind)] + win[i:]
 
@@ -191,9 +201,9 @@ class C07(Check):
     rule = ('for each registered decoder (frozen table mc/domains.json; enum-valued words take declared members, text records '
             'carry valid UTF-8): a generic full-context window [START, 1-record lookup, 3-record lookup (both filling their records exactly), undecoded record, END] '
             'and family-specific windows (dyld string announcement present/empty, DATA+STRING pairs, page fault with every '
-            'ordered pair of nested real-fault kinds incl. the undecoded one, sampler windows x flag sets, launch window) x word '
+            'ordered pair of nested real-fault kinds incl. the undecoded one, sampler windows x flag sets x stack-header flag sets, launch window, launch window with several images at one load address) x word '
             'sets {junk, failing END, zeros, all-ones, small} (quick: junk, fail, zeros) x every subset of the window dropped '
-            '(<=2^9), every single duplication, every insertion of one undecoded/unrelated/kernel-trace-data/look-alike record at every position, lone '
+            '(<=2^9), every single duplication, every insertion of one undecoded/unrelated/kernel-trace-data/look-alike/own-thread-terminate/lost-events record at every position, lone '
             'NONE/ALL, windows with 3 and 6 lookups with every dropped prefix; windows of 2^k-2..2^k+2 stand-alone records (k=6..13) before another call starts; every enum member in the zero-omission window (thorough: the whole fault enumeration for 4 different members of every enum-valued word). '
             'Oracle: feed_generator consumes the history and str() of every emitted trace returns. non-trivial = at least one '
             'event of the window was dropped, duplicated or inserted. Distinct by construction.')
